@@ -856,7 +856,8 @@ Varable failures: {var_failed}
             laym[:] = layb.mean(1)
             newlayf = layf.applyAlongDimensions(lay=kwds['LAY'])
             nlayb = newlayf.variables['lay_bounds']
-            outf.VGLVLS = np.append(nlayb[:, 0], nlayb[:, 1]).view(np.ndarray)
+            # lower edge of each new layer followed by the top edge of the last
+            outf.VGLVLS = np.append(nlayb[:, 0], nlayb[-1:, 1]).view(np.ndarray)
         if 'TSTEP' in kwds:
             # date and time flags are not quantities; applying the function
             # to them is meaningless, so TFLAG is regenerated from
